@@ -1,4 +1,5 @@
-"""Traced kernels shared by C01 and C02: the real slice_faces_plane on ONE symbolic face, once per corner pattern.
+"""Traced kernels shared by C01 and C02: the real slice_faces_plane on ONE symbolic face, once per corner pattern, and the
+public wrapper slice_triangles_by_plane on three of them.
 
 Concrete face table [[0, 1, 2]], symbolic vertices / plane.  The traced outputs are the returned vertex coordinates
 (expressions) plus the returned faces and face mapping (concrete, compared fail-closed with a table computed here
@@ -64,10 +65,72 @@ Proof.
 Qed.""" % (fi, F, M))
 
 
+def wrapper_without_dtype_asserts():
+    """The public wrapper compiled from its own source text (re-read on every run) with the `assert ....dtype == ...`
+    statements removed: they cannot hold for the tracer's object arrays; output dtypes are compared by the correspondence
+    check instead.  Everything else — shape checks, mask -> face indices, the call of slice_faces_plane — runs as written."""
+    import ast
+    import inspect
+    import textwrap
+
+    import polliwog.plane._slicing as mod
+
+    tree = ast.parse(textwrap.dedent(inspect.getsource(mod.slice_triangles_by_plane)))
+    stripped = []
+
+    class Strip(ast.NodeTransformer):
+        def visit_Assert(self, node):
+            if "dtype" in ast.unparse(node.test):
+                stripped.append(ast.unparse(node.test))
+                return ast.Pass()
+            return node
+
+    tree = ast.fix_missing_locations(Strip().visit(tree))
+    if len(stripped) != 4:  # faces_to_slice, face_mapping, vertices, faces — anything else: fail closed
+        raise RuntimeError("unexpected dtype assertions in slice_triangles_by_plane: %r" % stripped)
+    ns = {}
+    exec(compile(tree, mod.__file__, "exec"), mod.__dict__, ns)  # globals = the module's own (the tracer patches np there)
+    return ns["slice_triangles_by_plane"]
+
+
+def _wrapper_lemma(pattern, selected, mask_coq):
+    nv, faces, mapping = expected_tables(pattern, selected)
+    F = "[%s]" % "; ".join("mkface %d %d %d" % tuple(f) for f in faces)
+    M = "[%s]" % "; ".join("%d%%nat" % i for i in mapping)
+    return ("""Lemma {T}_ok : forall {vars} : R, {T}_path ROps {vars} ->
+  exists vsout,
+    slice_triangles_by_plane ROps [V3 v0 v1 v2; V3 v3 v4 v5; V3 v6 v7 v8] [mkface 0 1 2]
+      (V3 r0 r1 r2) (V3 n0 n1 n2) %s = Ok (MkOut vsout %s %s) /\\
+    {T} ROps {vars} = flat_map vlist vsout.
+Proof.
+  intros {vars} Hpath. unfold {T}_path in Hpath. unfold nfrac in Hpath. rops. path_facts Hpath.
+  unfold {T}. one_face_tie.
+Qed.""" % (mask_coq, F, M))
+
+
 def kernels():
     from polliwog.plane._trimesh_intersections import slice_faces_plane
 
     ks = []
+
+    def add_wrapper(name, pattern, mask):
+        selected = True if mask is None else bool(mask[0])
+        nv, faces, mapping = expected_tables(pattern, selected)
+        mask_arr = None if mask is None else np.array(mask)
+        mask_coq = "None" if mask is None else "(Some [%s])" % ("true" if mask[0] else "false")
+
+        def call(v, n, r, mask_arr=mask_arr):
+            f = wrapper_without_dtype_asserts()
+            return f(v, np.array([[0, 1, 2]]), r, n, faces_to_slice=mask_arr, ret_face_mapping=True)
+
+        ks.append(Kernel(
+            name, {"v": scenario(pattern), "n": NRM, "r": REF}, call, _wrapper_lemma(pattern, selected, mask_coq),
+            imports=[("PW.model", "M_slicing"), ("PW.proofs", "P_slicing_tie")],
+            perturb=1e-12 if 0 in pattern else 1e-3, timeout=60,
+            expect_structure={"tuple": [
+                {"shape": [nv, 3], "data": ["e"] * (3 * nv)},
+                {"shape": [len(faces), 3], "dtype": "int64", "data": [i for f in faces for i in f]},
+                {"shape": [len(mapping)], "dtype": "int64", "data": list(mapping)}]}))
 
     def add(name, pattern, selected, with_mask, unused_equal=False):
         nv, faces, mapping = expected_tables(pattern, selected)
@@ -99,4 +162,8 @@ def kernels():
     add("slice_unsel_bfo", (1, -1, 0), False, True)
     add("slice_unsel_bbb", (1, 1, 1), False, True)
     add("slice_unsel_ffb", (-1, -1, 1), False, True)
+    # the public wrapper slice_triangles_by_plane (mask -> face indices), traced from its source minus the dtype assertions
+    add_wrapper("wrapper_bff_mask", (1, -1, -1), [True])
+    add_wrapper("wrapper_fob_nomask", (-1, 0, 1), None)
+    add_wrapper("wrapper_fbb_unselected", (-1, 1, 1), [False])
     return ks
